@@ -333,7 +333,7 @@ class C07(F.PropCheck):
                         v.append('LATE switch-back of gpio %d came %d us after a command with duration %d ms (more than d+100 ms, only %d us of busy-wait)' % (p, el, d, bz))
             if target is not None: busy.append((t0, t0 + OP))
             # after the event: what is pending now?
-            if any(prev['rem'][i] > 0 and s['rem'][i] == 0 for i in range(nrel)) or e[0] not in ('ADV', 'CRASH'): lastop = max(lastop, s['t'])
+            if not crashed and (any(prev['rem'][i] > 0 and s['rem'][i] == 0 for i in range(nrel)) or e[0] != 'ADV'): lastop = max(lastop, s['t'])
             if crashed:
                 settled = t0 >= lastop + SAVE_US          # the last delayed save has certainly been written before the power loss
                 lastop = s['t']
